@@ -628,8 +628,9 @@ def check(prop, tier, seed, replay=None):
             cls = "header" if b["file"].endswith(".h") else ("implementation-file" if re.fullmatch(r"[sd]\d{10}\.c", b["file"]) else "main-file")
             bbad.append({"module": b["module"][:-5] if b["module"].endswith(".wasm") else b["module"], "variant": "-p-tokens:" + cls, "class": "pretty-output-differs-in-tokens",
                          "error": "%s (%s) %s: %s" % (b["module"], b["opts"] or "single file", b["file"], b["detail"])})
-        if tier == "thorough" or os.environ.get("VERIF_VARIANTS"):
-            vc, vbad = variant_sample(seed, exe, cdir, 24, rdir)
+        if True:
+            # translator build configurations (no pthreads: sequential writer, no -t option; bundled getopt/dirname/basename/strdup)
+            vc, vbad = variant_sample(seed, exe, cdir, 10 if tier == "quick" else 48, rdir)
             aux.update({"build_variant_groups_compared": vc, "build_variant_mismatches": len(vbad)})
             for b in vbad:
                 by_sig.setdefault("C09/behaviour/build-variant-output-differs", []).append({"idx": b["idx"], "detail": "canonical output differs between translator build configurations: %s" % b["hashes"], "replay": None,
